@@ -49,6 +49,10 @@ func New[k comparable, v any](opt Opts[k, v]) *Cache[k, v] {
 	minCount := 0
 	if opt.Count > 0 {
 		minCount = int(float64(opt.Count) * 0.9)
+		if minCount < 1 {
+			// pruning to zero entries is treated as disabled by pruneCount
+			minCount = 1
+		}
 	}
 	return &Cache[k, v]{
 		minAge:      opt.Age,
